@@ -13,6 +13,7 @@ import (
 	"encoding/json"
 	"errors"
 	"fmt"
+	"net/url"
 	"sync"
 	"time"
 
@@ -21,6 +22,7 @@ import (
 	"k8s.io/apimachinery/pkg/apis/meta/v1/unstructured"
 	"k8s.io/apimachinery/pkg/labels"
 	"k8s.io/apimachinery/pkg/runtime/schema"
+	"sigs.k8s.io/cli-utils/pkg/kstatus/polling"
 	"sigs.k8s.io/cli-utils/pkg/kstatus/polling/aggregator"
 	"sigs.k8s.io/cli-utils/pkg/kstatus/polling/collector"
 	"sigs.k8s.io/cli-utils/pkg/kstatus/polling/engine"
@@ -28,6 +30,7 @@ import (
 	"sigs.k8s.io/cli-utils/pkg/kstatus/polling/statusreaders"
 	"sigs.k8s.io/cli-utils/pkg/kstatus/status"
 	"sigs.k8s.io/cli-utils/pkg/object"
+	"sigs.k8s.io/cli-utils/pkg/testutil"
 	"sigs.k8s.io/controller-runtime/pkg/client"
 	"verif/harness/internal/proto"
 )
@@ -1116,5 +1119,161 @@ func init() {
 			return nil, err
 		}
 		return runPodctl(in), nil
+	}})
+}
+
+// ---------------------------------------------------------------------------------------------------------------------
+// domain pollcache: the REAL polling.NewStatusPoller (engine + default CachingClusterReader + default status readers)
+// over a client.Reader stand-in whose k-th LIST blocks until the context ends and then fails with the context's error
+// (bare, or wrapped the way an HTTP client wraps it). C17: cancellation / deadline at ANY point of a poll — in
+// particular while the cluster reader is listing — closes the channel WITHOUT an error event.
+
+type pollCacheIn struct {
+	IDs     []jid  `json:"ids"`
+	BlockAt int    `json:"blockAt"` // index of the LIST call that blocks (-1: none; the context ends between two polls)
+	End     string `json:"end"`     // "cancel" | "deadline"
+	Wrap    string `json:"wrap"`    // "bare" | "url" | "fmtw"
+}
+
+type blockingReader struct {
+	mu      sync.Mutex
+	lists   int
+	blockAt int
+	wrap    string
+	reached chan struct{}
+	once    sync.Once
+}
+
+func (r *blockingReader) Get(_ context.Context, key client.ObjectKey, _ client.Object, _ ...client.GetOption) error {
+	return apierrorsNotFound(key.Name)
+}
+
+func apierrorsNotFound(name string) error {
+	return &scriptErr{text: "not found: " + name, notFound: true}
+}
+
+func (r *blockingReader) List(ctx context.Context, _ client.ObjectList, _ ...client.ListOption) error {
+	r.mu.Lock()
+	k := r.lists
+	r.lists++
+	r.mu.Unlock()
+	if r.blockAt >= 0 && k >= r.blockAt {
+		r.once.Do(func() { close(r.reached) })
+		<-ctx.Done()
+		err := ctx.Err()
+		switch r.wrap {
+		case "url":
+			return &url.Error{Op: "Get", URL: "https://cluster/api", Err: err}
+		case "fmtw":
+			return fmt.Errorf("list failed: %w", err)
+		}
+		return err
+	}
+	return nil
+}
+
+func runPollCache(in pollCacheIn) (out map[string]any) {
+	defer func() {
+		if r := recover(); r != nil {
+			out = map[string]any{"panic": fmt.Sprint(r)}
+		}
+	}()
+	mapper := testutil.NewFakeRESTMapper(
+		schema.GroupVersionKind{Group: "", Version: "v1", Kind: "ConfigMap"},
+		schema.GroupVersionKind{Group: "", Version: "v1", Kind: "Pod"},
+		schema.GroupVersionKind{Group: "apps", Version: "v1", Kind: "Deployment"},
+		schema.GroupVersionKind{Group: "apps", Version: "v1", Kind: "ReplicaSet"},
+	)
+	rd := &blockingReader{blockAt: in.BlockAt, wrap: in.Wrap, reached: make(chan struct{})}
+	poller := polling.NewStatusPoller(rd, mapper, polling.Options{})
+	ctx, cancel := context.WithCancel(context.Background())
+	defer cancel()
+	if in.End == "deadline" {
+		var c2 context.CancelFunc
+		ctx, c2 = context.WithTimeout(ctx, 30*time.Millisecond)
+		defer c2()
+	}
+	ch := poller.Poll(ctx, fromJids(in.IDs), polling.PollOptions{PollInterval: time.Millisecond})
+	go func() {
+		if in.End != "cancel" {
+			return
+		}
+		if in.BlockAt >= 0 {
+			select {
+			case <-rd.reached:
+			case <-time.After(2 * time.Second):
+			}
+		} else {
+			time.Sleep(5 * time.Millisecond)
+		}
+		cancel()
+	}()
+	errs, updates := 0, 0
+	closed := false
+	tmo := time.After(5 * time.Second)
+loop:
+	for {
+		select {
+		case e, ok := <-ch:
+			if !ok {
+				closed = true
+				break loop
+			}
+			if e.Type == event.ErrorEvent {
+				errs++
+			} else {
+				updates++
+			}
+		case <-tmo:
+			break loop
+		}
+	}
+	return map[string]any{"closed": closed, "errorEvents": errs, "panic": nil}
+}
+
+func genPollCache(out *proto.Out, rng *proto.Rng, tier string) {
+	idSets := [][]jid{
+		{{"ns1", "a", "", "ConfigMap"}},
+		{{"ns1", "a", "", "ConfigMap"}, {"ns2", "b", "", "ConfigMap"}},
+		{{"ns1", "d", "apps", "Deployment"}},
+		{{"ns1", "d", "apps", "Deployment"}, {"ns1", "a", "", "ConfigMap"}},
+	}
+	var cases []pollCacheIn
+	for _, ids := range idSets {
+		for _, end := range []string{"cancel", "deadline"} {
+			for _, wrap := range []string{"bare", "url", "fmtw"} {
+				for _, k := range []int{-1, 0, 1, 2, 3, 5, 8} {
+					cases = append(cases, pollCacheIn{IDs: ids, BlockAt: k, End: end, Wrap: wrap})
+				}
+			}
+		}
+	}
+	res := make([]map[string]any, len(cases))
+	var wg sync.WaitGroup
+	sem := make(chan struct{}, 16)
+	for i := range cases {
+		wg.Add(1)
+		sem <- struct{}{}
+		go func(i int) {
+			defer wg.Done()
+			defer func() { <-sem }()
+			res[i] = runPollCache(cases[i])
+		}(i)
+	}
+	wg.Wait()
+	for i := range cases {
+		out.Emit("pollcache", cases[i], res[i])
+	}
+	_ = rng
+	_ = tier
+}
+
+func init() {
+	register("pollcache", domain{gen: genPollCache, run: func(raw json.RawMessage) (any, error) {
+		var in pollCacheIn
+		if err := json.Unmarshal(raw, &in); err != nil {
+			return nil, err
+		}
+		return runPollCache(in), nil
 	}})
 }
